@@ -30,6 +30,7 @@ FLAVOURS = {
     "pat": dict(cxx="g++", flags=["-O1", "-ftrivial-auto-var-init=pattern"]),
     "zero": dict(cxx="g++", flags=["-O1", "-ftrivial-auto-var-init=zero"]),
     "plain": dict(cxx="g++", flags=["-O1"]),
+    "fast": dict(cxx="g++", flags=["-O2"]),
     "fuzz": dict(cxx="clang++", flags=["-O1", "-fsanitize=fuzzer-no-link,address,undefined",
                                         "-fno-sanitize=object-size", "-fno-sanitize-recover=all"],
                  link=["-fsanitize=fuzzer,address,undefined"]),
